@@ -16,7 +16,11 @@ Hand-written, core-only (no Mathlib): the executables link against it.
 * slices / strings : `List α` (`string` = `List (BitVec 8)`, its bytes) WITHOUT aliasing and with
                 `cap = len`: `s[i]`, `s[a:b]` check their bounds against the length and panic.
 * `math/bits` : `Len64`, `OnesCount64`, `TrailingZeros64`, … as functions into `Int`.
+* `unicode/utf8`, rune conversions : through the executable model `Golib.Utf8` (bytes as `Nat`, runes as
+                `Int`); `rune` = `int32` is `BitVec 32` here, so the wrappers convert at the boundary.
 -/
+import Golib.Prelude.Utf8
+
 namespace Golib.GoSem
 
 inductive Res (α : Type) where
@@ -176,6 +180,40 @@ theorem makeSlice_natCast {α : Type} (z : α) (n : Nat) :
     makeSlice z (n : Int) = .ok (List.replicate n z) := by
   have h : ¬ ((n : Int) < 0) := by omega
   simp [makeSlice, h]
+
+/-! ### `unicode/utf8`, `range` over a string, rune conversions (`Golib.Utf8` is the model of the package) -/
+
+/-- the bytes of a string as the `List Nat` of `Golib.Utf8`. -/
+def strNat (s : List (BitVec 8)) : List Nat := s.map BitVec.toNat
+/-- back (every byte the `Golib.Utf8` functions produce is `< 256`). -/
+def natStr (s : List Nat) : List (BitVec 8) := s.map (BitVec.ofNat 8)
+
+/-- `utf8.RuneCountInString(s)` / `utf8.RuneCount(b)`. -/
+def utf8RuneCount (s : List (BitVec 8)) : Int := Int.ofNat (Golib.Utf8.runeCount (strNat s))
+/-- `utf8.DecodeRuneInString(s)` / `utf8.DecodeRune(b)`: `(rune, size)`. -/
+def utf8DecodeRune (s : List (BitVec 8)) : BitVec 32 × Int :=
+  (BitVec.ofInt 32 (Golib.Utf8.decodeRune (strNat s)).1, Int.ofNat (Golib.Utf8.decodeRune (strNat s)).2)
+/-- `utf8.RuneLen(r)`. -/
+def utf8RuneLen (r : BitVec 32) : Int := Golib.Utf8.runeLen r.toInt
+/-- `utf8.ValidRune(r)`. -/
+def utf8ValidRune (r : BitVec 32) : Bool := Golib.Utf8.validRune r.toInt
+/-- `utf8.ValidString(s)` / `utf8.Valid(b)`. -/
+def utf8Valid (s : List (BitVec 8)) : Bool := Golib.Utf8.valid (strNat s)
+/-- `for i, v := range s`: the `(byte offset, rune)` pairs in order (an invalid byte is U+FFFD, width 1). -/
+def strRange (s : List (BitVec 8)) : List (Int × BitVec 32) :=
+  (Golib.Utf8.rangeDecode (strNat s)).map fun e => (Int.ofNat e.1, BitVec.ofInt 32 e.2.1)
+/-- `[]rune(s)`. -/
+def stringToRunes (s : List (BitVec 8)) : List (BitVec 32) :=
+  (Golib.Utf8.runes (strNat s)).map (BitVec.ofInt 32)
+/-- `string(rs)` for `rs []rune`: invalid runes become U+FFFD. -/
+def runesToString (rs : List (BitVec 32)) : List (BitVec 8) :=
+  natStr (Golib.Utf8.encode (rs.map BitVec.toInt))
+/-- `string(r)` for an integer `r` (a byte, a rune): the UTF-8 encoding of the code point. -/
+def runeToString (r : Int) : List (BitVec 8) := natStr (Golib.Utf8.encodeRune r)
+/-- `strings.Repeat(s, n)`: panics on a negative count.  (`len(s) * n` is computed in the unbounded `Int`:
+the "output length overflow" panic of the real function is part of the `int ↦ Int` idealisation.) -/
+def stringsRepeat (s : List (BitVec 8)) (n : Int) : Res (List (BitVec 8)) :=
+  if n < 0 then .panic else .ok (List.replicate n.toNat s).flatten
 
 /-! ### `math/bits` -/
 
@@ -345,5 +383,63 @@ translated function can produce (the Go wrapper prints the positions of all clas
 def showErr (classes : List String) : Err → String
   | .nil => "nil"
   | .mk c _ => "err:" ++ toString (findIdx c classes 0)
+
+/-! ### `unicode/utf8.EncodeRune`, `unicode/utf16.DecodeRune` (used by the escape codecs of `strz/enc.go`) -/
+
+/-- The bytes `utf8.EncodeRune` writes for the rune `r` (an `int32`): 1–4 bytes; surrogates, negative values and
+values above U+10FFFF are written as U+FFFD (`EF BF BD`). -/
+def utf8EncodeRuneBytes (r : BitVec 32) : List (BitVec 8) :=
+  let v := r.toInt
+  let n := v.toNat
+  if v < 0 then [0xEF#8, 0xBF#8, 0xBD#8]
+  else if v < 0x80 then [BitVec.ofNat 8 n]
+  else if v < 0x800 then [BitVec.ofNat 8 (0xC0 + n / 64), BitVec.ofNat 8 (0x80 + n % 64)]
+  else if (0xD800 ≤ v ∧ v ≤ 0xDFFF) ∨ 0x10FFFF < v then [0xEF#8, 0xBF#8, 0xBD#8]
+  else if v < 0x10000 then [BitVec.ofNat 8 (0xE0 + n / 4096), BitVec.ofNat 8 (0x80 + n / 64 % 64), BitVec.ofNat 8 (0x80 + n % 64)]
+  else [BitVec.ofNat 8 (0xF0 + n / 262144), BitVec.ofNat 8 (0x80 + n / 4096 % 64), BitVec.ofNat 8 (0x80 + n / 64 % 64),
+        BitVec.ofNat 8 (0x80 + n % 64)]
+
+/-- `utf8.EncodeRune(dst[a:b], r)` writing through into `dst`: panics like the slice expression `dst[a:b]`; the
+encoding is written at the start of the window when it fits, otherwise the call panics before writing (the library
+checks the highest index first); the result is the updated `dst` (same length) and the number of bytes written. -/
+def utf8EncodeRuneAt (dst : List (BitVec 8)) (a b : Int) (r : BitVec 32) : Res (List (BitVec 8) × Int) :=
+  if a < 0 ∨ b < a ∨ (dst.length : Int) < b then .panic
+  else
+    let bs := utf8EncodeRuneBytes r
+    if b - a < (bs.length : Int) then .panic
+    else .ok (dst.take a.toNat ++ bs ++ dst.drop (a.toNat + bs.length), (bs.length : Int))
+
+/-- `utf16.DecodeRune(r1, r2)`: the code point of a surrogate pair, U+FFFD when `(r1, r2)` is not a valid pair. -/
+def utf16DecodeRune (r1 r2 : BitVec 32) : BitVec 32 :=
+  let a := r1.toInt
+  let b := r2.toInt
+  if 0xD800 ≤ a ∧ a < 0xDC00 ∧ 0xDC00 ≤ b ∧ b < 0xE000 then
+    BitVec.ofInt 32 ((a - 0xD800) * 0x400 + (b - 0xDC00) + 0x10000)
+  else 0xFFFD#32
+/-! ### capacity-tracked local slices (wave 9, C09)
+
+A local created by `make([]T, n, c)` that is resliced by `b = b[:k]` only and never gets a second
+name is the pair (visible part `b[0:len]`, rest of its array `b[len:cap]`). -/
+
+/-- `b := make([]T, n, c)`: panics unless `0 ≤ n ≤ c` (Go: "len out of range" / "cap out of range"). -/
+def makeCap {α : Type} (z : α) (n c : Int) : Res (List α × List α) :=
+  if n < 0 ∨ c < n then .panic
+  else .ok (List.replicate n.toNat z, List.replicate (c.toNat - n.toNat) z)
+
+/-- `b = b[:k]`: panics unless `0 ≤ k ≤ cap(b)`; elements between the old and the new length
+are what the array holds there. -/
+def resliceTo {α : Type} (b : List α × List α) (k : Int) : Res (List α × List α) :=
+  if k < 0 ∨ ((b.1.length + b.2.length : Nat) : Int) < k then .panic
+  else .ok ((b.1 ++ b.2).take k.toNat, (b.1 ++ b.2).drop k.toNat)
+
+theorem makeCap_natCast {α : Type} (z : α) (n c : Nat) (h : n ≤ c) :
+    makeCap z (n : Int) (c : Int) = .ok (List.replicate n z, List.replicate (c - n) z) := by
+  have h1 : ¬ ((n : Int) < 0 ∨ (c : Int) < (n : Int)) := by omega
+  simp only [makeCap, h1, if_false, Int.toNat_natCast]
+
+theorem resliceTo_natCast {α : Type} (b : List α × List α) (k : Nat) (h : k ≤ b.1.length + b.2.length) :
+    resliceTo b (k : Int) = .ok ((b.1 ++ b.2).take k, (b.1 ++ b.2).drop k) := by
+  have h1 : ¬ ((k : Int) < 0 ∨ ((b.1.length + b.2.length : Nat) : Int) < (k : Int)) := by omega
+  simp only [resliceTo, h1, if_false, Int.toNat_natCast]
 
 end Golib.GoSem
